@@ -53,16 +53,22 @@ func GetNonce(ctx context.Context) (nonce string) {
 	return v.nonce
 }
 
+// WithChildren returns a context that carries the children. The children are
+// scoped to the returned context, so that they are only seen by the component
+// that is rendered with it, and not by its siblings or by the components
+// rendered within the children.
 func WithChildren(ctx context.Context, children Component) context.Context {
 	ctx, v := getContext(ctx)
-	v.children = &children
-	return ctx
+	return context.WithValue(ctx, contextKey, &contextValue{renderState: v.renderState, children: &children})
 }
 
+// ClearChildren returns a context that carries no children.
 func ClearChildren(ctx context.Context) context.Context {
-	_, v := getContext(ctx)
-	v.children = nil
-	return ctx
+	ctx, v := getContext(ctx)
+	if v.children == nil {
+		return ctx
+	}
+	return context.WithValue(ctx, contextKey, &contextValue{renderState: v.renderState})
 }
 
 // NopComponent is a component that doesn't render anything.
@@ -492,21 +498,28 @@ type contextKeyType int
 
 const contextKey = contextKeyType(0)
 
+// contextValue is stored in the context. The render state is shared by all
+// of the contexts derived from the context it was initialized in, while the
+// children are specific to the context they were added to.
 type contextValue struct {
+	*renderState
+	children *Component
+}
+
+type renderState struct {
 	ss          map[string]struct{}
 	onceHandles map[*OnceHandle]struct{}
-	children    *Component
 	nonce       string
 }
 
-func (v *contextValue) setHasBeenRendered(h *OnceHandle) {
+func (v *renderState) setHasBeenRendered(h *OnceHandle) {
 	if v.onceHandles == nil {
 		v.onceHandles = map[*OnceHandle]struct{}{}
 	}
 	v.onceHandles[h] = struct{}{}
 }
 
-func (v *contextValue) getHasBeenRendered(h *OnceHandle) (ok bool) {
+func (v *renderState) getHasBeenRendered(h *OnceHandle) (ok bool) {
 	if v.onceHandles == nil {
 		v.onceHandles = map[*OnceHandle]struct{}{}
 	}
@@ -514,14 +527,14 @@ func (v *contextValue) getHasBeenRendered(h *OnceHandle) (ok bool) {
 	return
 }
 
-func (v *contextValue) addScript(s string) {
+func (v *renderState) addScript(s string) {
 	if v.ss == nil {
 		v.ss = map[string]struct{}{}
 	}
 	v.ss["script_"+s] = struct{}{}
 }
 
-func (v *contextValue) hasScriptBeenRendered(s string) (ok bool) {
+func (v *renderState) hasScriptBeenRendered(s string) (ok bool) {
 	if v.ss == nil {
 		v.ss = map[string]struct{}{}
 	}
@@ -529,14 +542,14 @@ func (v *contextValue) hasScriptBeenRendered(s string) (ok bool) {
 	return
 }
 
-func (v *contextValue) addClass(s string) {
+func (v *renderState) addClass(s string) {
 	if v.ss == nil {
 		v.ss = map[string]struct{}{}
 	}
 	v.ss["class_"+s] = struct{}{}
 }
 
-func (v *contextValue) hasClassBeenRendered(s string) (ok bool) {
+func (v *renderState) hasClassBeenRendered(s string) (ok bool) {
 	if v.ss == nil {
 		v.ss = map[string]struct{}{}
 	}
@@ -549,7 +562,7 @@ func InitializeContext(ctx context.Context) context.Context {
 	if _, ok := ctx.Value(contextKey).(*contextValue); ok {
 		return ctx
 	}
-	v := &contextValue{}
+	v := &contextValue{renderState: &renderState{}}
 	ctx = context.WithValue(ctx, contextKey, v)
 	return ctx
 }
